@@ -9,9 +9,10 @@ CONSTANTS
   Targets <- TargetsThree
   MaxRec = 3
   MaxFatal = 1
-  Timer = "none"
+  Timer = "first"
   EmitMode = "final"
   Record = TRUE
   Eager = TRUE
+  BatchBug = FALSE
 INVARIANTS TypeOK PerSeriesOrder NoDup NoDropLeak Conservation ShardFifo Complete EmitFinal
 CHECK_DEADLOCK FALSE
